@@ -129,6 +129,25 @@ live configuration of a top-level `redo --no-log` (`log = false`, no `-d`). -/
 theorem pretty_inband_witness :
     writeLine ⟨0, false, false, 0, 0, false⟩ noEsc 0 "@@REDO:unchanged:1:0.0000@@ ghost".toList = [] := by decide +kernel
 
+/-- The two stages that look for a record inside a line agree on where it starts: for a line with text `b` in front
+of its first `@@REDO:` and a well-formed record `r` from there on, the replay (`catlog`, since the repair 2aec02b)
+handles the text and the record as two lines, and the printer (`PrettyLog`) writes the text followed by the rendered
+record.  (Before the repair the replay treated the whole line as text and never followed the record.) -/
+theorem replay_and_printer_split_alike (cfg : Cfg) (e : Esc) (d : Nat) (l b a : List Char) (r : Rec)
+    (hf : findSub pre l = some (b, a)) (hne : b ≠ []) (hp : parse (pre ++ a) = .ok r) :
+    unglue1 l = [b, pre ++ a] ∧ writeLine cfg e d l = b ++ render cfg e d r := by
+  constructor
+  · unfold unglue1
+    rw [hf]
+    have : b.isEmpty = false := by
+      cases b with
+      | nil => exact absurd rfl hne
+      | cons _ _ => rfl
+    simp only [this, hp, Bool.false_eq_true, if_false]
+  · unfold writeLine
+    rw [hf]
+    simp only [hp]
+
 /-! ## The pretty replay is the raw replay, line by line -/
 
 /-- `replayText` cuts its result into one chunk per replay line, in order; the chunk of a plain line (no `@`) is the
